@@ -1,37 +1,56 @@
 import AlgoVerif.Model.C07
 import AlgoVerif.Model.C07Radix
 import AlgoVerif.Spec.C07
+import AlgoVerif.Proofs.C07Examples
 import AlgoVerif.Proofs.C07Insertion
 import AlgoVerif.Proofs.C07Simple
 import AlgoVerif.Proofs.C07Shell
+import AlgoVerif.Proofs.C07Merge
+import AlgoVerif.Proofs.C07Quick
+import AlgoVerif.Proofs.C07Quick3
+import AlgoVerif.Proofs.C07Heap
+import AlgoVerif.Proofs.C07Counting
+import AlgoVerif.Proofs.C07LSD
+import AlgoVerif.Proofs.C07Q3String
+import AlgoVerif.Proofs.C07MsdString
+import AlgoVerif.Proofs.C07MsdWords
 /-!
 # C07 — every sort returns the sorted permutation of its input
 
 Statements only; the proofs are in `Proofs/C07*.lean`.  Every theorem says that the Model of the
 Go function, run on an arbitrary slice (no length bound) with an arbitrary comparator that is a
-total preorder, returns `ok` (it neither indexes out of range nor runs out of loop fuel) and that
-the result is sorted and a permutation of the input (`IsSortOf`).
+total preorder (`TotalPreorder`: sign flip + transitivity, not necessarily injective), returns `ok`
+(it neither indexes out of range nor runs out of loop fuel) and that the result is sorted and a
+permutation of the input (`IsSortOf`).  The clock-seeded shuffle of `Quick` / `Select` is an arbitrary
+function `choice` subject only to the contract of `rand.Intn` (`IntnContract`).
 -/
 open AlgoVerif AlgoVerif.C07
-
-/-- a non-injective total preorder used by the non-vacuity examples: compare `key % 3` only -/
-def C07.exCmp (a b : Int × Int) : Int := (a.1 % 3) - (b.1 % 3)
-
-theorem C07.exCmp_tp : TotalPreorder C07.exCmp :=
-  ⟨by intro a b; unfold C07.exCmp; omega, by intro a b c; unfold C07.exCmp; omega⟩
 
 theorem C07_insertion {α : Type} (cmp : α → α → Int) (tp : TotalPreorder cmp) (a : Array α) :
     ∃ out, insertion cmp a = .ok out ∧ IsSortOf cmp out a := insertion_spec tp a
 
-example : insertion C07.exCmp #[(5, 0), (3, 1), (2, 2), (4, 3), (0, 4)] = .ok #[(3, 1), (0, 4), (4, 3), (5, 0), (2, 2)] := by decide
+example : insertion exCmp #[(5, 0), (3, 1), (2, 2), (4, 3), (0, 4)] = .ok #[(3, 1), (0, 4), (4, 3), (5, 0), (2, 2)] := by decide
 
 theorem C07_selection {α : Type} (cmp : α → α → Int) (tp : TotalPreorder cmp) (a : Array α) :
     ∃ out, selection cmp a = .ok out ∧ IsSortOf cmp out a := selection_spec tp a
 
-example : selection C07.exCmp #[(5, 0), (3, 1), (2, 2), (4, 3), (0, 4)] = .ok #[(3, 1), (0, 4), (4, 3), (2, 2), (5, 0)] := by decide
+example : selection exCmp #[(5, 0), (3, 1), (2, 2), (4, 3), (0, 4)] = .ok #[(3, 1), (0, 4), (4, 3), (2, 2), (5, 0)] := by decide
 
 theorem C07_shell {α : Type} (cmp : α → α → Int) (tp : TotalPreorder cmp) (a : Array α) :
     ∃ out, shell cmp a = .ok out ∧ IsSortOf cmp out a := shell_spec tp a
+
+example : ∃ out, shell exCmp #[(5, 0), (3, 1), (2, 2), (4, 3), (0, 4), (7, 5), (1, 6)] = .ok out ∧
+    IsSortOf exCmp out #[(5, 0), (3, 1), (2, 2), (4, 3), (0, 4), (7, 5), (1, 6)] := C07_shell _ exCmp_tp _
+
+theorem C07_merge {α : Type} (cmp : α → α → Int) (tp : TotalPreorder cmp) (zero : α) (a : Array α) :
+    ∃ out, mergeBU cmp zero a = .ok out ∧ IsSortOf cmp out a := mergeBU_spec tp zero a
+
+example : mergeBU exCmp (0, 0) #[(5, 0), (3, 1), (2, 2), (4, 3), (0, 4)] = .ok #[(3, 1), (0, 4), (4, 3), (5, 0), (2, 2)] := by decide
+
+theorem C07_mergeRec {α : Type} (cmp : α → α → Int) (tp : TotalPreorder cmp) (zero : α) (a : Array α) :
+    ∃ out, mergeRec cmp zero a = .ok out ∧ IsSortOf cmp out a := mergeRec_spec tp zero a
+
+example : mergeRec exCmp (0, 0) #[(5, 0), (3, 1), (2, 2), (4, 3), (0, 4)] = .ok #[(3, 1), (0, 4), (4, 3), (5, 0), (2, 2)] := by decide
 
 /-- `Shuffle` yields a permutation, for every outcome of the random source that respects the
 contract of `r.Intn` -/
@@ -42,3 +61,91 @@ theorem C07_shuffle {α : Type} (choice : Nat → Int) (a : Array α) (hc : Intn
 
 example : IntnContract (fun i => if i = 0 then 2 else 0) 3 := by
   intro i hi; dsimp only; split <;> omega
+
+/-- `Quick` (shuffle, then `quick`) for every shuffle outcome -/
+theorem C07_quick {α : Type} (cmp : α → α → Int) (tp : TotalPreorder cmp) (choice : Nat → Int) (a : Array α)
+    (hc : IntnContract choice a.size) :
+    ∃ out, quick choice cmp a = .ok out ∧ IsSortOf cmp out a := by
+  obtain ⟨s, h1, h2⟩ := shuffle_spec a hc
+  obtain ⟨out, h3, h4, h5⟩ := quickCore_spec tp s
+  exact ⟨out, by simp [quick, h1, h3], h4, h5.trans (Array.perm_iff_toList_perm.1 h2)⟩
+
+example : quick (fun i => if i = 0 then 2 else 0) exCmp #[(5, 0), (3, 1), (2, 2), (4, 3)] = .ok #[(3, 1), (4, 3), (2, 2), (5, 0)] := by decide
+
+/-- the deterministic core of `Quick` (what the verif hook `VerifQuickNoShuffle` runs) -/
+theorem C07_quickCore {α : Type} (cmp : α → α → Int) (tp : TotalPreorder cmp) (a : Array α) :
+    ∃ out, quickCore cmp a = .ok out ∧ IsSortOf cmp out a := quickCore_spec tp a
+
+theorem C07_quick3way {α : Type} (cmp : α → α → Int) (tp : TotalPreorder cmp) (a : Array α) :
+    ∃ out, quick3Way cmp a = .ok out ∧ IsSortOf cmp out a := quick3Way_spec tp a
+
+example : quick3Way exCmp #[(5, 0), (3, 1), (2, 2), (4, 3), (0, 4)] = .ok #[(3, 1), (0, 4), (4, 3), (5, 0), (2, 2)] := by decide
+
+theorem C07_heap {α : Type} (cmp : α → α → Int) (tp : TotalPreorder cmp) (zero : α) (a : Array α) :
+    ∃ out, heap cmp zero a = .ok out ∧ IsSortOf cmp out a := heap_spec tp zero a
+
+example : ∃ out, heap exCmp (0, 0) #[(5, 0), (3, 1), (2, 2), (4, 3), (0, 4)] = .ok out ∧
+    IsSortOf exCmp out #[(5, 0), (3, 1), (2, 2), (4, 3), (0, 4)] := C07_heap _ exCmp_tp _ _
+
+/-- `Select(a, k)` returns an element of rank `k`, for every `0 ≤ k < len(a)` and every shuffle
+outcome; the slice stays a permutation of the input -/
+theorem C07_select {α : Type} (cmp : α → α → Int) (tp : TotalPreorder cmp) (choice : Nat → Int) (a : Array α)
+    (hc : IntnContract choice a.size) (k : Nat) (hk : k < a.size) :
+    ∃ out v, select choice cmp a (k : Int) = .ok (out, v) ∧ out.toList.Perm a.toList ∧ HasRank cmp a.toList k v := by
+  obtain ⟨s, h1, h2⟩ := shuffle_spec a hc
+  have hsz : s.size = a.size := h2.size_eq
+  obtain ⟨out, v, h3, h4, h5⟩ := selectLoop_spec tp s k (by omega)
+  refine ⟨out, v, by simp [select, h1, h3], ?_, ?_⟩
+  · exact Array.perm_iff_toList_perm.1 (h4.trans h2)
+  · exact hasRank_of_perm (Array.perm_iff_toList_perm.1 h2) h5
+
+example : ∃ out v, select (fun _ => 0) exCmp #[(5, 0), (3, 1), (2, 2), (4, 3), (0, 4)] ((2 : Nat) : Int) = .ok (out, v) ∧
+    out.toList.Perm [(5, 0), (3, 1), (2, 2), (4, 3), (0, 4)] ∧ HasRank exCmp [(5, 0), (3, 1), (2, 2), (4, 3), (0, 4)] 2 v :=
+  C07_select _ exCmp_tp (fun _ => 0) _ (by intro i hi; simp only [List.size_toArray, List.length_cons, List.length_nil] at hi ⊢; omega) 2 (by decide)
+
+/-! ## radix sorts: the output *equals* the reference sort (core `List.mergeSort`) by the native order -/
+
+/-- `LSDUint` sorts every slice of 64-bit words by the `uint` order -/
+theorem C07_lsdUint (a : Array UInt64) :
+    ∃ out, lsdUint a = .ok out ∧ out.toList = a.toList.mergeSort uLe := lsdUint_spec countingPass_spec a
+
+/-- `LSDInt` sorts every slice of 64-bit words by the `int` order (two's complement) -/
+theorem C07_lsdInt (a : Array UInt64) :
+    ∃ out, lsdInt a = .ok out ∧ out.toList = a.toList.mergeSort iLe := lsdInt_spec countingPass_spec a
+
+/-- `LSDString(a, w)`: every key has at least `w` bytes ⇒ the stable sort by the first `w` bytes -/
+theorem C07_lsdString_prefix (a : Array (List UInt8)) (w : Nat) (hw : ∀ s, s ∈ a.toList → w ≤ s.length) :
+    ∃ out, lsdString a (w : Int) = .ok out ∧ out.toList = a.toList.mergeSort (prefixLe w) :=
+  lsdString_spec countingPass_spec a w hw
+
+/-- `LSDString(a, w)` on keys of width exactly `w` (the documented use): the native string order -/
+theorem C07_lsdString (a : Array (List UInt8)) (w : Nat) (hw : ∀ s, s ∈ a.toList → s.length = w) :
+    ∃ out, lsdString a (w : Int) = .ok out ∧ out.toList = a.toList.mergeSort bytesLe :=
+  lsdString_fixed_spec countingPass_spec a w hw
+
+example : ∀ s, s ∈ (#[[0xff, 0x61], [0x00, 0xff], [0x61, 0x61]] : Array (List UInt8)).toList → s.length = 2 := by decide
+
+/-- `MSDString` sorts every slice of byte strings (any lengths, embedded NULs, shared prefixes) by the
+native string order -/
+theorem C07_msdString (a : Array (List UInt8)) :
+    ∃ out, msdString a = .ok out ∧ out.toList = a.toList.mergeSort bytesLe := msdString_spec countingPass_spec a
+
+/-- `Quick3WayString` (shuffle with the package-global source, then 3-way radix quicksort) sorts every
+slice of byte strings by the native string order, for every shuffle outcome -/
+theorem C07_q3String (choice : Nat → Int) (a : Array (List UInt8)) (hc : IntnContract choice a.size) :
+    ∃ out, q3String choice a = .ok out ∧ out.toList = a.toList.mergeSort bytesLe := q3String_spec choice a hc
+
+example : IntnContract (fun _ => 0) 20 := by intro i hi; dsimp only; omega
+
+/-- `MSDUint` sorts every slice of 64-bit words by the `uint` order (after the fix of D11) -/
+theorem C07_msdUint (a : Array UInt64) :
+    ∃ out, msdUint a = .ok out ∧ out.toList = a.toList.mergeSort uLe := msdUint_spec a
+
+/-- `MSDInt` sorts every slice of 64-bit words by the `int` order (two's complement) -/
+theorem C07_msdInt (a : Array UInt64) :
+    ∃ out, msdInt a = .ok out ∧ out.toList = a.toList.mergeSort iLe := msdInt_spec a
+
+/-- the D11 shape: 17 words whose top bytes are 0 and 1 -/
+example : ∃ out, msdUint (Array.ofFn (n := 17) fun i => (UInt64.ofNat (i.val % 2) <<< 56) ||| UInt64.ofNat (17 - i.val)) = .ok out ∧
+    out.toList = (Array.ofFn (n := 17) fun i => (UInt64.ofNat (i.val % 2) <<< 56) ||| UInt64.ofNat (17 - i.val)).toList.mergeSort uLe :=
+  C07_msdUint _
